@@ -74,9 +74,14 @@ const char* reb_githash_str = STRINGIFY(GITHASH);             // This line gets 
 
 static int reb_simulation_error_message_waiting(struct reb_simulation* const r);
 
+static void reb_server_mutex_lock(struct reb_simulation* const r);
+static void reb_server_mutex_unlock(struct reb_simulation* const r);
 void reb_simulation_steps(struct reb_simulation* const r, unsigned int N_steps){
     for (unsigned int i=0;i<N_steps;i++){
+        // The server thread must not serialize the simulation in the middle of a step.
+        reb_server_mutex_lock(r);
         reb_simulation_step(r);
+        reb_server_mutex_unlock(r);
     }
 }
 void reb_simulation_step(struct reb_simulation* const r){
